@@ -84,6 +84,10 @@ class _RecMixin:
             return (self.sname, x)
         if self.mode == "tuple2":  # stages that take two data inputs (decoder with side info, feedback generator)
             return (self.sname, x, args[0] if args else None)
+        if self.mode == "identity":  # returns the very tensor object it was given
+            return x
+        if self.mode == "buffer":  # returns a stored tensor (the same object on every call), e.g. a pilot sequence
+            return self.buf
         return self.a * x + self.b
 
 
@@ -262,7 +266,7 @@ def gen_case(run_seed: int, index: int, tier: str) -> dict:
     elif kind == "mac":
         n = rng.choice([1, 2, 2, 3, 3, 4, 4, 5, 6, 8])
         case["users"] = n
-        case["enc_mode"] = rng.choice(["shared", "list", "list", "list_partial"]) if n >= 3 else rng.choice(["shared", "list", "list"])
+        case["enc_mode"] = rng.choice(["shared", "list", "list", "list_partial", "alias_identity", "alias_buffer"]) if n >= 3 else rng.choice(["shared", "list", "list", "alias_identity"])
         case["dec_mode"] = rng.choice(["joint", "joint_list", "list"])
         case["shape"] = rng.choice([[2, 3], [1, 4], [3, 2], [5, 1], [1, 1], [4, 6]])
         for _ in range(rng.choice([1, 2])):
@@ -710,7 +714,15 @@ def run_mac(ctx: Ctx):
         return cls(name, tr, mode="affine", a=PRIMES[j % len(PRIMES)], b=PRIMES[(j + 5) % len(PRIMES)] * 7)
 
     enc_of_user = []
-    if case["enc_mode"] == "shared":
+    alias = case["enc_mode"] in ("alias_identity", "alias_buffer")
+    if alias:
+        # all users' encoded signals are one and the same tensor object (identity encoder fed [x] * n, or a
+        # shared encoder that returns a stored pilot buffer): an in-place superposition would corrupt it
+        e = RecModel("enc", tr, mode="identity" if case["enc_mode"] == "alias_identity" else "buffer")
+        encs = e
+        enc_of_user = [e] * n
+        ctx.res.probes["mac.aliased_encoder_outputs"] += 1
+    elif case["enc_mode"] == "shared":
         e = aff("enc", 0)
         encs = e
         enc_of_user = [e] * n
@@ -737,6 +749,14 @@ def run_mac(ctx: Ctx):
     for op in case["ops"]:
         call = op[1]
         xs = [torch.tensor(v, dtype=torch.int64).reshape(shape) for v in call["inputs"]]
+        if alias:
+            if case["enc_mode"] == "alias_identity":
+                xs = [xs[0]] * n
+                signal = xs[0].clone()
+            else:
+                enc_of_user[0].buf = torch.tensor(call["inputs"][0], dtype=torch.int64).reshape(shape)
+                signal = enc_of_user[0].buf.clone()
+        xs_before = [t.clone() for t in xs]
         out = model(xs, *call["args"], **call["kwargs"])
         trace = ctx.take_trace()
         ctx.log.add("op.forward", {"users": n, "out": out})
@@ -745,6 +765,18 @@ def run_mac(ctx: Ctx):
             ctx.res.nontrivial.append(core.short_hash(["mac", n, case["enc_mode"], case["dec_mode"], shape, call["inputs"]]))
         names = [t[0] for t in trace]
         enc_calls = [t for t in trace if t[0].startswith("enc")]
+        if any(not teq(a_, b_) for a_, b_ in zip(xs, xs_before)):
+            ctx.violate("input_modified", "a user's input tensor was modified by the forward pass", enc_mode=case["enc_mode"])
+            continue
+        if alias:
+            names = [t[0] for t in trace]
+            if names.count("enc") != n or names.count("constraint") != 1 or names.count("channel") != 1:
+                ctx.violate("count", f"stage calls {names}: expected {n} encoder calls, one constraint, one channel use")
+                continue
+            ic = names.index("constraint")
+            if not teq(trace[ic][1], n * signal):
+                ctx.violate("superposition", f"{n} users all sending the same signal object s: the constraint received a tensor different from {n}*s", enc_mode=case["enc_mode"])
+            continue
         # each user's encoder ran exactly once on that user's input
         want = Counter()
         for i in range(n):
